@@ -185,6 +185,17 @@ def oracle_tf(case, ctx):
         f(f'inverse is stale after an in-place pose update: w*-w = {tr(W * (-W))}')
     if yx(W * P(p)) != m_tf_apply(w, p):
         f('action is stale after an in-place pose update')
+    # a product is a value: it keeps denoting the composition of the poses as they were when it was formed, whatever
+    # happens to the operands afterwards (the library moves and turns agents by updating their pose in place)
+    A_, B_, E_ = T(s), T(t), Transform(Position(0, 0), Orientation.F)
+    prods = {'s*t': A_ * B_, 's*identity': A_ * E_, 'identity*s': E_ * A_, '-s': -A_, 's*(t*identity)': A_ * (B_ * E_)}
+    snap = {k: tr(v) for k, v in prods.items()}
+    A_.position, A_.orientation = P((u[0], u[1])), objs.ori(m_compose(s[2], 'R'))
+    B_.position = P((u[1], u[0]))
+    E_.position = P((1, 1))
+    for k, v in prods.items():
+        if tr(v) != snap[k]:
+            f(f'the product {k} changed from {snap[k]} to {tr(v)} when an operand was updated in place afterwards')
     ident = lambda x: x[0] == 0 and x[1] == 0 and x[2] == 'F'  # noqa: E731
     nt = not (ident(s) or ident(t) or ident(u)) and s[2] != 'F' and t[2] != 'F'
     ctx.ev.case(case, nt=nt, classes=['s=' + s[2]])
@@ -196,7 +207,9 @@ def oracle_tf(case, ctx):
 def strat_area(tier):
     ext = st.integers(0, 6 if tier == 'quick' else 8)
     area = st.tuples(BIG, ext, BIG, ext).map(lambda a: [[a[0], a[0] + a[1]], [a[2], a[2] + a[3]]])
-    return st.fixed_dictionaries({'t': transform_s, 'a': area})
+    near = st.tuples(st.integers(-4, 3), st.integers(-4, 3), head_s).map(list)      # poses around the origin (coordinates -1/-2 hash alike)
+    step = st.tuples(st.sampled_from([-1, 0, 1]), st.sampled_from([-1, 0, 1]), st.sampled_from(['F', 'F', 'L', 'R']))
+    return st.fixed_dictionaries({'t': transform_s | near, 'a': area, 'walk': st.lists(step, max_size=6)})
 
 
 def oracle_area(case, ctx):
@@ -235,8 +248,23 @@ def oracle_area(case, ctx):
                 f(f'{name}: transformed area does not contain transformed member')
     if A.contains(P((a[0][0] - 1, a[1][0]))) or A.contains(P((a[0][0], a[1][1] + 1))):
         f('contains accepts outside position')
+    # one pose object, updated in place like an agent's (moves of one cell, turns), acting on the same area after every update
+    W = T(t)
+    w = list(t)
+    walked = 0
+    for (dy, dx, turn) in case.get('walk', []):
+        w = [w[0] + dy, w[1] + dx, m_compose(w[2], turn)]
+        W.position = P((w[0], w[1]))
+        W.orientation = objs.ori(w[2])
+        got = sorted(yx(p) for p in (W * objs.build_area(a)).positions())
+        if got != sorted(m_tf_apply(w, c) for c in cells):
+            f(f'after {walked + 1} in-place updates of the pose (now {w}) pose*area is not the area of the transformed positions')
+        if yx(W * P(cells[0])) != m_tf_apply(w, cells[0]):
+            f(f'after {walked + 1} in-place updates of the pose (now {w}) pose*position is stale')
+        walked += 1
     nt = t[2] != 'F' and (t[0], t[1]) != (0, 0) and len(cells) > 1 and A.height != A.width
-    ctx.ev.case(case, nt=nt, classes=['o=' + t[2], 'cells>1' if len(cells) > 1 else 'cells=1'])
+    crossed = any(v in (-1, -2) for v in (t[0], t[1])) and walked > 0
+    ctx.ev.case(case, nt=nt, classes=['o=' + t[2], 'cells>1' if len(cells) > 1 else 'cells=1'] + (['pose_walk'] if walked else []) + (['pose_walk_near_minus_one'] if crossed else []))
 
 
 # ---------------------------------------------------------------- grid rotation
@@ -348,9 +376,9 @@ CHECKS = [
     Check('position_action', oracle_pos, strategy=strat_pos, examples={'quick': 1500, 'thorough': 6000},
           rule='orientation pairs x unbounded integer positions: linearity, compatibility, isometry, model agreement'),
     Check('transform_algebra', oracle_tf, strategy=strat_tf, examples={'quick': 1500, 'thorough': 6000},
-          rule='triples of transforms with unbounded coordinates: associativity, identity, inverse, action compatibility'),
+          rule='triples of transforms with unbounded coordinates: associativity, identity, inverse, action compatibility; laws after in-place pose updates; products keep their value when an operand is updated in place afterwards'),
     Check('area_action', oracle_area, strategy=strat_area, examples={'quick': 800, 'thorough': 3000},
-          rule='transform x area (extent <= 7, unbounded offset): image of the area == set of images of its positions', required=['cells>1']),
+          rule='transform x area (extent <= 7, unbounded offset): image of the area == set of images of its positions; then one pose object walked through up to 6 in-place updates (also around the origin), acting on the area after each', required=['cells>1', 'pose_walk', 'pose_walk_near_minus_one']),
     Check('grid_rotation', oracle_grid, strategy=strat_grid, examples={'quick': 400, 'thorough': 1500},
           rule='grid shapes 1..6 (9 thorough) with pairwise distinguishable cells x 4 rotations: multiset, shape, documented rearrangement, inverse', required=['nonsquare', 'distinct']),
     Check('next_position', oracle_next, strategy=strat_next, examples={'quick': 300, 'thorough': 1000},
